@@ -267,6 +267,76 @@ fn stateless_rekey_sweep(ctx: &Ctx, depth: usize) {
     let _ = total;
 }
 
+
+/// Observing a session must not encrypt anything: every state object is Debug-formatted between all the steps of a
+/// session with rekeys of every kind, stateful and stateless; the merged encryption log must still be free of
+/// (key, nonce) collisions (the REKEY encryption at 2^64-1 is the obvious thing to collide with).
+fn observation_sweep(ctx: &Ctx) {
+    let mut jobs = vec![];
+    for (c, b) in cipher_backends() {
+        for pat in ["NN", "XX", "N"] {
+            for mode in [Mode::TT, Mode::SS] {
+                jobs.push((c, b, pat, mode));
+            }
+        }
+    }
+    jobs.par_iter().for_each(|(c, b, pat, mode)| {
+        let p = proto(pat, &[], DhAlg::X25519, *c, HashAlg::Sha256);
+        let mut cfg = c06_cfg(&p, &[], 31);
+        cfg.backend = [*b, *b];
+        let dbg = [Op::DebugFmt { side: Side::I }, Op::DebugFmt { side: Side::R }];
+        let mut ops: Vec<Op> = dbg.to_vec();
+        for op in sess::handshake_ops(&p, &[1, 2, 3, 4]) {
+            ops.push(op);
+            ops.extend(dbg.iter().cloned());
+        }
+        ops.extend(sess::convert_ops(*mode));
+        ops.extend(dbg.iter().cloned());
+        let oneway = p.pattern.is_oneway();
+        let dirs: Vec<Side> = if oneway { vec![Side::I] } else { vec![Side::I, Side::R] };
+        let mut round = 0usize;
+        let mut traffic = |ops: &mut Vec<Op>| {
+            // transport_ops numbers stateless nonces from 0 each time: give each round its own nonces
+            for op in sess::transport_ops(*mode, oneway, &dirs, &[5 + round, 6 + round]) {
+                ops.push(match op {
+                    Op::SWrite { side, nonce, plen, cap } => Op::SWrite { side, nonce: nonce + 10 * round as u64, plen, cap },
+                    Op::SRead { side, nonce, msg, cap } => Op::SRead { side, nonce: nonce + 10 * round as u64, msg, cap },
+                    o => o,
+                });
+            }
+            round += 1;
+            ops.extend(dbg.iter().cloned());
+        };
+        traffic(&mut ops);
+        for rk in [
+            vec![Op::RekeyOut { side: Side::I }, Op::RekeyIn { side: Side::R }, Op::RekeyOut { side: Side::R }, Op::RekeyIn { side: Side::I }],
+            vec![Op::RekeyManual { side: Side::I, i: Some(1), r: Some(2) }, Op::RekeyManual { side: Side::R, i: Some(1), r: Some(2) }],
+            vec![Op::RekeyOut { side: Side::I }, Op::RekeyIn { side: Side::R }],
+        ] {
+            for o in rk {
+                ops.extend(dbg.iter().cloned());
+                ops.push(o);
+            }
+            ops.extend(dbg.iter().cloned());
+            traffic(&mut ops);
+        }
+        let e = sess::run(&cfg, &ops);
+        ctx.add(&ctx.evaluations, 1);
+        ctx.add(&ctx.nontrivial, 1);
+        ctx.add(&ctx.transitions, e.steps.len() as u64);
+        ctx.add(&ctx.traces, 1);
+        for (sig, d) in key_nonce_violations(&e) {
+            ctx.violation(format!("{sig} (session observed through Debug between all steps)"), d, sess::case_json(&cfg, &ops));
+        }
+        for m in sess::filter(&e, &[Cat::NoOp]) {
+            if matches!(e.steps.get(m.step).map(|s| &s.op), Some(Op::DebugFmt { .. })) {
+                ctx.violation("Debug-formatting a state object changed it", m.detail.clone(), sess::case_json(&cfg, &ops[..=m.step]));
+            }
+        }
+    });
+    ctx.count("observation_sessions", jobs.len() as u64);
+}
+
 fn common_t_written(e: &Exec, s: Side) -> usize {
     transport_wires(e, s).len()
 }
@@ -292,6 +362,7 @@ pub fn run(tier: Tier) -> i32 {
     }
     names.par_iter().for_each(|(p, b2)| e1_name(&ctx, p, *b2));
     stateless_rekey_sweep(&ctx, if quick { 4 } else { 5 });
+    observation_sweep(&ctx);
     ctx.count("e1_names", names.len() as u64);
     let (extra, devs) = if quick { (3, 2) } else { (5, 3) };
     let mut e2: Vec<Proto> = patterns::base_patterns().iter().map(|b| Proto::new(b, &[], DhAlg::X25519, CipherAlg::ChaChaPoly, HashAlg::Sha256).unwrap()).collect();
